@@ -259,3 +259,81 @@ var propTrust = vk.Register(&vk.Prop[Case]{
 
 func TestTrust(t *testing.T) { propTrust.Run(t) }
 func FuzzTrust(f *testing.F) { propTrust.Fuzz(f) }
+
+// ---- sequences of requests from different peers on one app (pooled contexts) ----------------------------
+
+type SeqStep struct {
+	Peer    string
+	Headers [][2]string
+}
+
+type SeqCase struct {
+	Proxies                      []string
+	Loopback, Private, LinkLocal bool
+	ProxyHeader                  string
+	Validate                     bool
+	Steps                        []SeqStep
+}
+
+func seqApp(c SeqCase) *fiber.App {
+	app := fiber.New(fiber.Config{TrustProxy: true, ProxyHeader: c.ProxyHeader, EnableIPValidation: c.Validate,
+		TrustProxyConfig: fiber.TrustProxyConfig{Proxies: c.Proxies, Loopback: c.Loopback, Private: c.Private, LinkLocal: c.LinkLocal}})
+	app.Get("/", func(ctx fiber.Ctx) error {
+		return ctx.SendString(fmt.Sprintf("ip=%q host=%q hostname=%q scheme=%q secure=%v base=%q sub=%q trusted=%v", ctx.IP(), ctx.Host(), ctx.Hostname(), ctx.Scheme(), ctx.Secure(), ctx.BaseURL(), ctx.Subdomains(), ctx.IsProxyTrusted()))
+	})
+	return app
+}
+
+func bodyOf(out []byte) string {
+	s := string(out)
+	if i := strings.Index(s, "\r\n\r\n"); i >= 0 {
+		return s[:12] + " " + s[i+4:]
+	}
+	return s
+}
+
+// checkSeq: every request served by an app that already served other peers (same pooled fasthttp and fiber contexts)
+// is answered exactly like the same request on a fresh app - the trust decision never carries over between connections.
+func checkSeq(c SeqCase) vk.Verdict {
+	shared := seqApp(c)
+	trustedSeen, untrustedSeen := false, false
+	for i, st := range c.Steps {
+		var hdr [][2]string
+		hdr = append(hdr, [2]string{"Host", "real.sub.test"})
+		hdr = append(hdr, st.Headers...)
+		raw := vk.Req("GET", "/", hdr, nil)
+		addr := &net.TCPAddr{IP: net.ParseIP(st.Peer), Port: 4000 + i}
+		got, err := vk.WireAddr(shared, raw, addr)
+		if err != nil {
+			return vk.Failf("step %d: %v", i, err)
+		}
+		want, err := vk.WireAddr(seqApp(c), raw, addr)
+		if err != nil {
+			return vk.Failf("step %d (fresh app): %v", i, err)
+		}
+		if bodyOf(got) != bodyOf(want) {
+			return vk.Failf("step %d: peer %s with headers %q on an app that served %+v before:\n got  %s\n want %s (fresh app)\nconfig: proxies %v lo=%v priv=%v ll=%v header %q validate=%v",
+				i, st.Peer, st.Headers, c.Steps[:i], bodyOf(got), bodyOf(want), c.Proxies, c.Loopback, c.Private, c.LinkLocal, c.ProxyHeader, c.Validate)
+		}
+		if strings.Contains(bodyOf(want), "trusted=true") {
+			trustedSeen = true
+		} else {
+			untrustedSeen = true
+		}
+	}
+	return vk.Verdict{NonTrivial: trustedSeen && untrustedSeen && len(c.Steps) >= 2, Classes: []string{fmt.Sprintf("mixed-trust:%v", trustedSeen && untrustedSeen)}}
+}
+
+var propSeq = vk.Register(&vk.Prop[SeqCase]{Property: property, Name: "sequence", Check: checkSeq, Quick: 6000, Thorough: 40000,
+	Gen: func(t *rapid.T) SeqCase {
+		b := genCase(t)
+		c := SeqCase{Proxies: b.Proxies, Loopback: b.Loopback, Private: b.Private, LinkLocal: b.LinkLocal, ProxyHeader: b.ProxyHeader, Validate: b.Validate}
+		n := rapid.IntRange(2, 5).Draw(t, "nsteps")
+		for i := 0; i < n; i++ {
+			s := genCase(t)
+			c.Steps = append(c.Steps, SeqStep{Peer: s.Peer, Headers: s.Headers})
+		}
+		return c
+	}})
+
+func TestSequence(t *testing.T) { propSeq.Run(t) }
